@@ -91,9 +91,11 @@ def build_dataset(ds, kind, id_col=False, as_float=False):
 @st.composite
 def selection(draw, width, min_len=1, max_len=4, allow_int=True):
     t = draw(st.sampled_from(['int', 'list', 'array'] if allow_int and min_len <= 1 else ['list', 'array']))
+    # one selection in four may address columns from the end (-1 = last column): an ordinary numpy index selection
+    one = st.integers(-width, width - 1) if draw(st.integers(0, 3)) == 0 else st.integers(0, width - 1)
     if t == 'int':
-        return {'t': 'int', 'idx': [draw(st.integers(0, width - 1))]}
-    return {'t': t, 'idx': draw(st.lists(st.integers(0, width - 1), min_size=min_len, max_size=max_len))}
+        return {'t': 'int', 'idx': [draw(one)]}
+    return {'t': t, 'idx': draw(st.lists(one, min_size=min_len, max_size=max_len))}
 
 
 def sel_arg(sel):
@@ -184,7 +186,7 @@ def oracle_duplicates(case, rec):
         if not np.array_equal(Z[:, d + j], X0[:, src]):
             raise Violation(f'appended column {d + j} is not a copy of source column {src}')
     rec.nt(any(len(set(X0[:, s].tolist())) > 1 for s in idx), key=case)
-    rec.cls('sel=' + case['sel']['t'])
+    rec.cls('sel=' + case['sel']['t'], *(['negative-index'] if min(idx) < 0 else []))
 
 
 def user_mix(x):
@@ -311,10 +313,14 @@ oracle_info_comb = make_info_oracle('combinations')
 def label_case(ptypes, min_classes=2):
     @st.composite
     def build(draw):
-        m = draw(st.integers(min_classes, 6))
+        # mostly few classes; one case in three asks for many (up to 64: evenly spaced cut points accumulate rounding)
+        m = draw(st.integers(min_classes, 6)) if draw(st.integers(0, 2)) else draw(st.sampled_from(range(7, 65)))
         ptype = draw(st.sampled_from([t for t in ptypes if t != 'float' or m == 2]))
         case = {'ds': draw(dataset_spec(min_n=2, max_n=300, min_card=2)), 'm': m, 'ptype': ptype,
-                'dec': draw(st.sampled_from(['tiefree', 'tiefree', 'tiefree-neg', 'linear', 'nonlinear'])),
+                # with many classes the built-in relations (few distinct decision values) tie at nearly every cut and nothing would
+                # be checked: many-class cases use the tie-free decision functions
+                'dec': draw(st.sampled_from(['tiefree', 'tiefree', 'tiefree-neg', 'tiefree-rank', 'linear', 'nonlinear'] if m <= 6
+                                            else ['tiefree', 'tiefree-neg', 'tiefree-rank'])),
                 'k': draw(st.sampled_from([2, 1, 0.5, 3])), 'perm_seed': draw(st.integers(0, 2**32 - 1))}
         if ptype != 'default':
             W = draw(st.sampled_from([w for w in WS if w >= m]))
@@ -370,6 +376,11 @@ def oracle_labels(case, rec, kind='C20/labels'):
             return tiefree(x) - shift
         kw['decision_function'] = tiefree_neg
         dec = tiefree_neg(X)
+    elif case['dec'] == 'tiefree-rank':
+        def tiefree_rank(x):         # small tie-free decision values 0..n-1 (the row's rank): gaps are large relative to the values
+            return np.argsort(np.argsort(tiefree(x), kind='stable'), kind='stable').astype(np.int64)
+        kw['decision_function'] = tiefree_rank
+        dec = tiefree_rank(X)
     elif case['dec'] == 'linear':
         kw['class_relation'] = 'linear'
         dec = np.sum(2 * X + 3, axis=1)
@@ -380,7 +391,7 @@ def oracle_labels(case, rec, kind='C20/labels'):
     np.random.seed(case['perm_seed'])
     y = cut(kind, cc.generate_labels, X, **kw)
     y = np.asarray(y)
-    rec.cls('p=' + case['ptype'], 'dec=' + case['dec'], 'classes=%d' % m)
+    rec.cls('p=' + case['ptype'], 'dec=' + case['dec'], 'classes=%d' % m if m <= 6 else 'classes=7..64')
     if y.shape != (n,):
         raise Violation(f'labels have shape {y.shape}, expected ({n},)')
     yl = y.tolist()
@@ -607,7 +618,7 @@ def run(ctx):
         Clause('C20/combinations', comb_case, oracle_combinations, quick=400, thorough=36000, quick_shards=1),
         Clause('C20/info-correlations', info_case('corr'), oracle_info_corr, quick=200, thorough=24000, quick_shards=1),
         Clause('C20/info-combinations', info_case('comb'), oracle_info_comb, quick=200, thorough=24000, quick_shards=1),
-        Clause('C20/labels', label_case(['default', 'float', 'list']), oracle_labels, quick=800, thorough=72000, quick_shards=2),
+        Clause('C20/labels', label_case(['default', 'float', 'list']), oracle_labels, quick=2400, thorough=144000, quick_shards=3),
         Clause('C20/labels-cluster', cluster_case, oracle_cluster, quick=40, thorough=4800, quick_shards=2),
         Clause('C20/noise-categorical', cat_noise_case, oracle_noise_categorical, quick=500, thorough=48000, quick_shards=2),
         Clause('C20/noise-missing', missing_noise_case, oracle_noise_missing, quick=400, thorough=36000, quick_shards=1),
